@@ -130,7 +130,10 @@ func (p *Proof) Verify(group curve.Curve, hash *hash.Hash, public Public) bool {
 
 	{
 		// lhs = Enc(z;v)
-		lhs := prover.EncWithNonce(p.Z, p.V)
+		// z = α + e•x is not range checked and exceeds the plaintext range for large x (EncWithNonce
+		// would panic): encrypt its symmetric representative mod N, which gives the same ciphertext
+		z := new(saferith.Int).SetModSymmetric(p.Z.Mod(prover.N()), prover.N())
+		lhs := prover.EncWithNonce(z, p.V)
 
 		// rhs = (e ⊙ X) ⊕ B
 		rhs := public.X.Clone().Mul(prover, e).Add(prover, p.B)
